@@ -399,6 +399,15 @@ func buildCore(p map[string]interface{}, div int) (*built, error) {
 		errKey := jIntOpt(p, "errKey")
 		keepKey := func(key bytemap.ByteMap) (bool, error) {
 			k, _ := intDim(key, in.keyDim)
+			if pks, ok := p["panicKeys"].([]interface{}); ok {
+				// the filter expression panics on this row (rpc mode: under the real rpc server's
+				// recover boundary)
+				for _, pk := range pks {
+					if f, ok := pk.(float64); ok && int(f) == k {
+						panic("zvh filter panics on unexpected data")
+					}
+				}
+			}
 			if k == errKey {
 				return false, errFilter
 			}
@@ -481,6 +490,9 @@ func buildCore(p map[string]interface{}, div int) (*built, error) {
 	return nil, fmt.Errorf("core: cannot build %v", p["op"])
 }
 
+// consumerPanic is the value the caller's callback panics with (fault panicAt).
+const consumerPanic = "zvh consumer callback panics"
+
 // caller is the recording callback the model calls userSink.
 type caller struct {
 	f       Fault
@@ -502,6 +514,10 @@ func (cl *caller) onRow(row *core.FlatRow) (bool, error) {
 		if i == cl.f.K {
 			cl.stopped = true
 			return false, nil
+		}
+	case "panicAt":
+		if i == cl.f.K {
+			panic(consumerPanic)
 		}
 	}
 	cl.rows = append(cl.rows, cl.decode(row))
@@ -545,7 +561,21 @@ func iterateFlat(c *Case, src core.FlatRowSource, decode func(*core.FlatRow) Row
 	ctx, cancel := ctxFor(c)
 	defer cancel()
 	cl := &caller{f: c.Fault, decode: decode}
-	md, err := src.Iterate(ctx, core.FieldsIgnored, cl.onRow)
+	var md interface{}
+	var err error
+	func() {
+		// the callback's own panic may come back on this goroutine (e.g. from the emit phase of a
+		// sort): the caller has then been told in the most direct way
+		defer func() {
+			if p := recover(); p != nil {
+				if p != interface{}(consumerPanic) {
+					panic(p)
+				}
+				md, err = nil, fmt.Errorf("%v", p)
+			}
+		}()
+		md, err = src.Iterate(ctx, core.FieldsIgnored, cl.onRow)
+	}()
 	o := &Outcome{Rows: cl.rows, Err: errClass(err), Stopped: cl.stopped, Stats: statsOf(md)}
 	if o.Rows == nil {
 		o.Rows = []Row{}
